@@ -2,11 +2,13 @@
    the spec json_of: proofs/T2JBytesProofs.v) is run on the case's thrift bytes and its TEXT is compared with the text of
    t2j.BinaryConv.Do — byte for byte, except at double lexemes, where the walk writes a marker carrying the bits and the
    implementation's lexeme is judged by value (lex_is_f64: dec2f64 and the rounding spec, as check 301 does).
-   Cases outside the options the walk models (api.js_conv fields under EnableValueMapping — hence the known finding 303 —,
-   thrift base extraction, ConvertException) are skipped.  Bytes that are not the encoding of a well-formed conforming
-   value (truncations, garbage: the walk runs on them all the same) are outside C03: a disagreement there is drift. *)
+   The walk models api.js_conv value mapping, WriteDefaultField / WriteRequireField and the response-base extraction at the
+   root ([t2j_walk_root]); only ConvertException on a struct root is outside it (skipped).  WriteOptionalField (bit 11) has no
+   effect on a descriptor built without SetOptionalBitmap: the walk ignores it and the implementation must agree.
+   Bytes that are not the encoding of a well-formed conforming value (truncations, garbage: the walk runs on them all the
+   same) are outside C03: a disagreement there is drift. *)
 From Coq Require Import ZArith List Bool.
-From DG Require Import CaseFormat ProtoWireRef ThriftWire Json Num Base64 T2J T2JBytes Check03.
+From DG Require Import CaseFormat ProtoWireRef ThriftWire Json Num Base64 T2J T2JUnset T2JBytes Check03.
 Import ListNotations.
 Local Open Scope Z_scope.
 
@@ -24,9 +26,14 @@ Definition root_has_base (d : tdesc) : bool :=
 
 (* the converter is the walk on this case *)
 Definition in_walk_domain (o : Z) (d : tdesc) : bool :=
-  negb (o_value_mapping o && desc_has_jsconv d) &&
-  negb (o_thrift_base o && o_base_in_ctx o && root_has_base d) &&
   negb (o_convert_exception o && root_is_struct d).
+
+(* the response-base fields of the root are structs *)
+Definition base_is_structb (d : tdesc) : bool :=
+  match d with
+  | DStruct fs => forallb (fun f => negb (f_respbase (fst f)) || (desc_type (snd f) =? T_STRUCT)) fs
+  | _ => true
+  end.
 
 (* w: result of the marker walk; exact: the walk's own text (computed only for the replay detail);
    dom: the bytes are the encoding of a well-formed conforming value (the theorem's domain);
@@ -51,8 +58,8 @@ Definition check_304 (fs : list field) : verdict :=
   | FZ o :: rest =>
     match parse_desc (S (length rest)) rest with
     | Some (d, [FB tb; FZ ec; FB out]) =>
-      if negb (in_walk_domain o d && desc_wf d) then VSkip else
-      let ow := o mod 32 in                       (* the bits the walk reads; value mapping is vacuous on this descriptor *)
+      if negb (in_walk_domain o d && desc_wf d && base_is_structb d) then VSkip else
+      let ow := o mod 2048 in                     (* bits 0..10: what the walk reads (bit 11, WriteOptionalField, has no effect) *)
       let n := S (length tb) in                    (* nesting cannot exceed the number of bytes *)
       let dv :=
         match skip_go (desc_type d) tb with        (* walk the bytes with the bounded skip first: decode is only run on complete values *)
@@ -62,10 +69,10 @@ Definition check_304 (fs : list field) : verdict :=
                     end
         | None => None
         end in
-      judge_304 (t2j_walk_gen fd_mark ow n d tb)
-                (fun _ => match t2j_walk n ow d tb with Some (t, _) => [FB t] | None => [] end)
+      judge_304 (t2j_walk_root fd_mark ow n d tb)
+                (fun _ => match t2j_walk_root f64_exact_lexeme ow n d tb with Some (t, _) => [FB t] | None => [] end)
                 (fun _ => match dv with
-                          | Some v => match json_of ow d v, json_parse out with
+                          | Some v => match fst (t2j_specw ow d v), json_parse out with
                                       | TOk e, Some j => jmatch e j
                                       | _, _ => false
                                       end
